@@ -12,12 +12,15 @@
    Strings are byte lists (list N, every element < 256 for real inputs).
    No proofs here.
 
-   Known limit of the model (stated in the trusted base): the streaming
-   decoder of the library decodes its input in chunks (a multiple of four
-   characters, at most 1024) and checks for data after a padded quantum only
-   inside a chunk; the model checks it globally.  The two coincide on every
-   input shorter than one chunk and on every input without an interior pad
-   character. *)
+   The stream decoder of the library decodes what it has buffered in blocks
+   of whole quanta and checks "nothing after a padded quantum" only inside a
+   block.  With yq's padder the text arrives in one read and the pad
+   characters in a later one, so the blocks are: the whole quanta of the
+   (newline-stripped) text, then the 1..3 left-over characters together with
+   the appended pad characters.  The model follows that (b64_stream).
+   Known limit (stated in the trusted base): a text longer than the first
+   read of bytes.Buffer.ReadFrom (680 characters) is split into more blocks;
+   that only matters for malformed text with an interior pad character. *)
 From YQ Require Import Base.Str.
 
 Definition c_pad : N := 61.   (* = *)
@@ -63,6 +66,13 @@ Inductive b64_result :=
 | B64Ok (bytes : str)
 | B64Err (e : b64_error).
 
+(* after a padded quantum nothing may follow inside the block *)
+Definition b64_after_pad (r : str) (v : str) : b64_result :=
+  match r with
+  | [] => B64Ok v
+  | _ => B64Err B64Corrupt
+  end.
+
 Definition b64_cons3 (x y z : N) (r : b64_result) : b64_result :=
   match r with B64Ok l => B64Ok (x :: y :: z :: l) | e => e end.
 
@@ -77,21 +87,14 @@ Fixpoint b64_decode_quanta (s : str) : b64_result :=
           if c3 =? c_pad then
             (* j = 2: the next character must be the second pad, then end *)
             if c4 =? c_pad then
-              match r with
-              | [] => B64Ok [(v1 * 262144 + v2 * 4096) / 65536]
-              | _ => B64Err B64Corrupt
-              end
+              b64_after_pad r [(v1 * 262144 + v2 * 4096) / 65536]
             else B64Err B64Corrupt
           else
             match b64_val c3 with
             | Some v3 =>
                 if c4 =? c_pad then
-                  match r with
-                  | [] =>
-                      let n := v1 * 262144 + v2 * 4096 + v3 * 64 in
-                      B64Ok [n / 65536; (n / 256) mod 256]
-                  | _ => B64Err B64Corrupt
-                  end
+                  let n := v1 * 262144 + v2 * 4096 + v3 * 64 in
+                  b64_after_pad r [n / 65536; (n / 256) mod 256]
                 else
                   match b64_val c4 with
                   | Some v4 =>
@@ -118,20 +121,44 @@ Fixpoint strip_newlines (s : str) : str :=
 Fixpoint repeat_n (c : N) (n : nat) : str :=
   match n with O => [] | S k => c :: repeat_n c k end.
 
-(* base64Padder: count is the number of bytes read, newlines included *)
-Definition b64_padder (s : str) : str :=
+(* base64Padder: count is the number of bytes read, newlines included;
+   at EOF it supplies 4 - count mod 4 pad characters when count mod 4 <> 0 *)
+Definition b64_pad_count (s : str) : nat :=
   let m := N.of_nat (length s) mod 4 in
-  if m =? 0 then s else s ++ repeat_n c_pad (N.to_nat (4 - m)).
+  if m =? 0 then O else N.to_nat (4 - m).
+
+(* whole quanta of a text, and the 0..3 characters left over *)
+Fixpoint split_quanta (t : str) : str * str :=
+  match t with
+  | c1 :: c2 :: c3 :: c4 :: r => let (a, b) := split_quanta r in (c1 :: c2 :: c3 :: c4 :: a, b)
+  | _ => ([], t)
+  end.
+
+(* base64.NewDecoder over (newline-stripped text, then padn pad characters) *)
+Definition b64_stream (t : str) (padn : nat) : b64_result :=
+  let (block1, rest) := split_quanta t in
+  match b64_decode_quanta block1 with
+  | B64Err e => B64Err e
+  | B64Ok v1 =>
+      let (block2, left) := split_quanta (rest ++ repeat_n c_pad padn) in
+      match b64_decode_quanta block2 with
+      | B64Err e => B64Err e
+      | B64Ok v2 =>
+          match left with
+          | [] => B64Ok (v1 ++ v2)
+          | _ => B64Err B64UnexpectedEOF
+          end
+      end
+  end.
 
 (* base64Decoder.Decode on the whole input *)
 Definition b64_decode (s : str) : b64_result :=
-  b64_decode_quanta (strip_newlines (b64_padder s)).
+  b64_stream (strip_newlines s) (b64_pad_count s).
 
-(* what a reader that pads by the number of *base64 characters* would do:
-   used to state the fix candidate for the newline defect *)
-Definition b64_padder_fixed (s : str) : str := b64_padder (strip_newlines s).
+(* what a padder that counts only the characters the decoder will see would
+   do: used to state the fix candidate for the newline defect *)
 Definition b64_decode_fixed (s : str) : b64_result :=
-  b64_decode_quanta (strip_newlines (b64_padder_fixed s)).
+  b64_stream (strip_newlines s) (b64_pad_count (strip_newlines s)).
 
 (* drop the trailing pad characters: the "unpadded input" yq wants to accept *)
 Fixpoint strip_pad (s : str) : str :=
